@@ -360,8 +360,12 @@ def find_check_cache(context):
         return
 
     # Check if any of the explicit inputs are newer than any of the explicit
-    # outputs. If so, we definitely want to regenerate the build files.
-    if ( max(_path.getmtime_ns(i, context.env.base_dirs, strict=False)
+    # outputs. If so, we definitely want to regenerate the build files. The
+    # same goes for an input that is gone (e.g. a removed options.bfg): the
+    # build file's rule for it is out of date until we regenerate.
+    if ( min(_path.getmtime_ns(i, context.env.base_dirs, strict=False)
+             for i in regen_files.inputs) == 0 or
+         max(_path.getmtime_ns(i, context.env.base_dirs, strict=False)
              for i in regen_files.inputs) >
          min(_path.getmtime_ns(i, context.env.base_dirs, strict=False)
              for i in regen_files.outputs) ):
